@@ -1,5 +1,3 @@
-//go:build verif && c11wip
-
 package props
 
 // c11_test.go: C11 - access-control evaluation is sound, monotone and counts each signer once;
@@ -122,26 +120,6 @@ func c11RealURIs(uris []string) []string {
 func c11IsAccountSym(sym string) bool {
 	_, ok := c11Accounts[sym]
 	return ok
-}
-
-func (r c11Rule) members() []string {
-	var out []string
-	seen := map[string]bool{}
-	for _, m := range r.M {
-		if !seen[m.Name] {
-			seen[m.Name] = true
-			out = append(out, m.Name)
-		}
-	}
-	for _, s := range r.Sets {
-		for _, k := range s {
-			if !seen[k] {
-				seen[k] = true
-				out = append(out, k)
-			}
-		}
-	}
-	return out
 }
 
 func (r c11Rule) hasMember(name string) bool {
@@ -507,7 +485,6 @@ func c11FloatSafe(r c11Rule) bool {
 		return true
 	}
 	n := len(r.M)
-	idx := make([]int, 0, n)
 	var rec func(used int, fsum float64, isum int, cnt int) bool
 	rec = func(used int, fsum float64, isum int, cnt int) bool {
 		if (fsum >= float64(r.Accept)/10) != (isum >= r.Accept) {
@@ -523,7 +500,6 @@ func c11FloatSafe(r c11Rule) bool {
 		}
 		return true
 	}
-	_ = idx
 	return rec(0, 0, 0, 0)
 }
 
@@ -907,7 +883,7 @@ func c11Enumerate(t *testing.T, c *hx.Collector) int {
 	c.CountN(st.pairs, "evaluator:rule-x-signer-list")
 	c.CountN(st.relSame, "evaluator:same-signer-set-relation")
 	c.CountN(st.relMono, "evaluator:superset-relation")
-	for _, k := range c16SortedKeysC11(st.byClass) {
+	for _, k := range c11SortedKeys(st.byClass) {
 		for i := 0; i < st.byClass[k]/len(lb.lists); i++ {
 			c.Label("rules:" + k)
 		}
@@ -933,7 +909,7 @@ func c11Enumerate(t *testing.T, c *hx.Collector) int {
 	return violations
 }
 
-func c16SortedKeysC11(m map[string]int) []string {
+func c11SortedKeys(m map[string]int) []string {
 	ks := make([]string, 0, len(m))
 	for k := range m {
 		ks = append(ks, k)
@@ -954,10 +930,11 @@ type c11Auth struct {
 }
 
 // c11PStep is one step of the pipeline machine.
-//   setup : contract->account mapping, accounts acc and X2 created through $acl.NewAccount, one block
-//   change: SetAccountAcl(Target) / SetMethodAcl(counter.inc, owned by acc) with rule Rule, signed by Auth
-//   spend : a transfer out of account Target's own funds (back to itself), signed by Auth
-//   mine  : the node's own block; walk: State.Walk to block Target index; sync: walk to the ledger tip
+//
+//	setup : contract->account mapping, accounts acc and X2 created through $acl.NewAccount, one block
+//	change: SetAccountAcl(Target) / SetMethodAcl(counter.inc, owned by acc) with rule Rule, signed by Auth
+//	spend : a transfer out of account Target's own funds (back to itself), signed by Auth
+//	mine  : the node's own block; walk: State.Walk to block Target index; sync: walk to the ledger tip
 type c11PStep struct {
 	Op     string    `json:"op"`
 	Kind   string    `json:"kind,omitempty"`   // change: "account" | "method"
@@ -999,8 +976,10 @@ func (p *c11Pipe) rulesAt(s *hx.MState) (map[string]c11Rule, error) {
 	return out, nil
 }
 
-func (p *c11Pipe) confirmedRules() (map[string]c11Rule, error) { return p.rulesAt(p.nm.States[p.nm.Ptr]) }
-func (p *c11Pipe) pendingRules() (map[string]c11Rule, error)   { return p.rulesAt(p.nm.PoolState()) }
+func (p *c11Pipe) confirmedRules() (map[string]c11Rule, error) {
+	return p.rulesAt(p.nm.States[p.nm.Ptr])
+}
+func (p *c11Pipe) pendingRules() (map[string]c11Rule, error) { return p.rulesAt(p.nm.PoolState()) }
 
 func c11NoteKeys(nm *hx.NodeMachine, tx *pb.Transaction) {
 	for _, o := range tx.TxOutputsExt {
@@ -1633,7 +1612,7 @@ func c11RunPipelineCase(cs *hx.Case, fs *hx.FindingSet) {
 			exec(c11PStep{Op: "sync"})
 		}
 	}
-	for _, k := range c16SortedKeysC11(p.stat) {
+	for _, k := range c11SortedKeys(p.stat) {
 		if p.stat[k] > 0 {
 			cs.Label(k)
 		}
